@@ -332,7 +332,12 @@ def select_summaries(prog, reviewed_keys=()):
         for s in inventory(prog, reach):
             if s.kind.split(":")[0] in ("panic", "unwrap", "expect"):
                 ok, why = d2_discharge(prog, s)
-                if not ok and ("R09.4|" + s.key) not in reviewed_keys:
+                # a reviewed site that a rewrite moved into a closure of the same function (`x.map(|i| { assert!(..); .. })`)
+                # is still that reviewed site: look it up under the enclosing function as well
+                moved = None
+                if s.body.kind == "Closure" and s.body.closure_root in prog.bodies and "|" in s.key:
+                    moved = prog.bodies[s.body.closure_root].short + "|" + s.key.split("|", 1)[1]
+                if not ok and ("R09.4|" + s.key) not in reviewed_keys and not (moved and ("R09.4|" + moved) in reviewed_keys):
                     bad.append(s.key)
         if not bad:
             summarize.add(b.short)
